@@ -37,15 +37,32 @@ func genHistory(r *hxlib.Run, emit func(hxlib.Case), backend string, shadow bool
 	default:
 		ifl += " 0 0 0 0"
 	}
-	lines = append(lines, ifl)
 	delayed := cache == "d" || cache == "e"
+	// PutMany and Purge bypass the interface's read cache and delayed write set (documented caveat, recorded
+	// finding). What a later Get answers then depends on cache residency; to keep that reproducible such
+	// histories use a large cache and records without expiry (gcache TTLs never fire).
+	findingMode := (cache == "r" || cache == "d") && rng.Intn(4) == 0
+	if delayed || findingMode {
+		// PutMany applies the interface options a second time when the write set is flushed, an evicted
+		// entry is written without: with Always* options the stored metadata would depend on the ARC policy
+		ifl = "if p 1 1 " + cache + " 0 0 0 0"
+	}
+	lines = append(lines, ifl)
 	cached := cache != "n"
-	smallCache := cache == "s" || cache == "e"
+	_ = cache == "s" || cache == "e"
 	batcher := backend == "h" || backend == "b"
 	wrote, read := false, false
+	lastForm := map[string]string{}
+	// with a small delayed-write cache an entry is either flushed (PutMany runs Meta.Update again) or written
+	// by the evict handler (it does not): a pending relative expiry would make the stored Expires depend on
+	// the ARC policy
+	noRel := cache == "e"
+
 	rec := func() string {
 		form := dbx.GenForm(rng)
-		return fmt.Sprintf("%s %s %s %s", pick(r, keys), form, dbx.GenMeta(rng, rng.Intn(6) == 0), dbx.GenFields(rng, form, ""))
+		k := pick(r, keys)
+		lastForm[k] = form
+		return fmt.Sprintf("%s %s %s %s", k, form, dbx.GenMetaX(rng, rng.Intn(6) == 0, noRel, findingMode), dbx.GenFields(rng, form, ""))
 	}
 	sync := func() {
 		if delayed {
@@ -73,22 +90,37 @@ func genHistory(r *hxlib.Run, emit func(hxlib.Case), backend string, shadow bool
 			lines = append(lines, "del p "+pick(r, keys))
 			r.Count("op:delete")
 		case x < 62:
+			if findingMode {
+				continue
+			}
 			lines = append(lines, fmt.Sprintf("setabs p %s %s", pick(r, keys), pick(r, []string{"5", "@-5000", "@+3600", "@+86400", "0"})))
 			r.Count("op:setabs")
 		case x < 65:
+			if noRel || findingMode {
+				continue
+			}
 			lines = append(lines, fmt.Sprintf("setrel p %s %s", pick(r, keys), pick(r, []string{"3600", "100", "0", "-5"})))
 			r.Count("op:setrel")
 		case x < 67:
 			lines = append(lines, pick(r, []string{"mksecret", "mkcrown"})+" p "+pick(r, keys))
 			r.Count("op:mkflag")
 		case x < 71:
-			lines = append(lines, fmt.Sprintf("insert p %s %s %s", pick(r, keys), pick(r, []string{"S", "I", "F", "B", "N", "L", "Q"}),
+			// InsertValue works through the accessor of whatever object it is handed (typed struct from the
+			// cache, JSON wrapper from storage), so its result depends on cache residency (ARC policy, and
+			// gcache keeps an old TTL when an entry is overwritten without one); on a RAW wrapper it
+			// rewrites the data as JSON (not modelled). It is not one of C02's operations: exercised
+			// without cache here and in C03.
+			k := pick(r, keys)
+			if cached || lastForm[k] == "R" {
+				continue
+			}
+			lines = append(lines, fmt.Sprintf("insert p %s %s %s", k, pick(r, []string{"S", "I", "F", "B", "N", "L", "Q"}),
 				pick(r, []string{"s:new", "i:42", "f:2500", "b:1", "b:0", "s:", "i:-1"})))
 			r.Count("op:insert")
 		case x < 76:
 			// a complete batch; on a cached interface PutMany bypasses the cache (documented caveat,
 			// recorded finding), with a small cache the replacement policy would show through: skip
-			if cached && (smallCache || rng.Intn(4) != 0) {
+			if cached && !findingMode {
 				continue
 			}
 			lines = append(lines, "pmbegin p")
@@ -113,7 +145,7 @@ func genHistory(r *hxlib.Run, emit func(hxlib.Case), backend string, shadow bool
 			read = true
 			r.Count("op:query")
 		case x < 91:
-			if cached && (smallCache || rng.Intn(4) != 0) {
+			if cached && !findingMode {
 				continue
 			}
 			sync()
@@ -147,6 +179,9 @@ func genHistory(r *hxlib.Run, emit func(hxlib.Case), backend string, shadow bool
 	sync()
 	lines = append(lines, "query p - -", "dump")
 	kind := "hist:" + backend + sh + cache
+	if findingMode {
+		kind += ":batch-behind-cache"
+	}
 	emit(hxlib.Case{Lines: lines, NonTrivial: wrote && read, Kind: kind})
 	r.Count(fmt.Sprintf("hist-len:%d0s", len(lines)/10))
 }
